@@ -9,6 +9,7 @@ import tempfile
 
 from harness import core, project as P
 from harness.common import pmap
+from harness import drive_testlog
 
 core.import_scoda()
 from scoda.elements.bar import Bar  # noqa: E402
@@ -205,6 +206,10 @@ def execute(case):
 def run(ctx):
     global TMPDIR
     TMPDIR = str(ctx.tmp)
+    if ctx.replay and json.load(open(ctx.replay))["observation"].get("kind") == "log":
+        lobs, lver, lcov = drive_testlog.run_ticks(ctx, replay_obs=json.load(open(ctx.replay))["observation"])
+        return ctx.finish(list(zip(lobs, lver)), rule="replay of one repository test under the call recorder",
+                          nontrivial=lambda o: drive_testlog.nontrivial(o), samples=[], extra_cov=lcov)
     if ctx.replay:
         c = json.load(open(ctx.replay))["observation"]["case"]
         cases = [(0, c["family"], c["ops"]), (1, c["family"], c["ops"])]
@@ -235,6 +240,8 @@ def run(ctx):
         raise core.MachineryError(f"vacuity: token steps={tok}, steps ending in an exception={raised} of {len(obs)}")
 
     def nontrivial(o):
+        if o.get("kind") == "log":
+            return drive_testlog.nontrivial(o) if o.get("known") else None
         if o["raised"]:
             return None
         return (o["case"]["family"], tuple(o["case"]["ops"]), o["op"], o["first"])
@@ -243,10 +250,20 @@ def run(ctx):
     rz = collections.Counter(o["raised"].split(":")[0] + ":" + o["op"] for o in obs if o["raised"])
     samples = [{"family": o["case"]["family"], "history": o["case"]["ops"], "step": o["op"], "kinds": o["kinds"],
                 "tokenKinds": o["tokenKinds"]} for o in obs[5::max(1, len(obs) // 3)]][:3]
-    return ctx.finish(list(zip(obs, ver)),
+    # the repository's own tests (a fast subset in the quick tier): every logged public call on an integer-tick object
+    lcov = {}
+    if not ctx.replay:
+        lobs, lver, lcov = drive_testlog.run_ticks(ctx)
+        lcov = {k.replace("repo_tests_", "repo_tests_ticks_"): v for k, v in lcov.items()}
+    else:
+        lobs, lver = [], []
+    return ctx.finish(list(zip(obs, ver)) + list(zip(lobs, lver)),
                       rule="behaviours of TickTypes.tla: every history of <=2 (thorough 3) of its 23 operations on 6 integer-tick input "
                            "families (tracks of unequal length, bars needing padding, a note cut by a bar line, an empty track, "
                            "signature changes incl. beats longer and shorter than a quarter: 3/2, 2/1, 2/2, 5/8, 7/16, 12/8) + seeded random histories up to length 8; one line per executed step; non-trivial "
-                           "= distinct (family, history, step) that did not end in an exception",
+                           "= distinct (family, history, step) that did not end in an exception; plus every outermost public Sequence call "
+                           "logged while the repository's own tests run (quick: five fast files; thorough: all), judged by "
+                           "Trace_TickLog when the object held only integer times before and the arguments were integers",
                       nontrivial=nontrivial, samples=samples,
-                      extra_cov={"steps_with_tokens": tok, "steps_ending_in_exception": raised, "exceptions_by_kind": dict(rz.most_common(6))})
+                      extra_cov=dict({"steps_with_tokens": tok, "steps_ending_in_exception": raised,
+                                      "exceptions_by_kind": dict(rz.most_common(6))}, **lcov))
